@@ -8,6 +8,10 @@ checkpoint is taken only at a quiescent point (no store to iteration state after
 the last save on any path of _Step/Finalize/Step/_Solve); custom __reduce__
 implementations preserve every attribute; __deepcopy__ copies the decorated cost
 together with the cells it closes over; the restart file is registered.
+Round 3: sticky run settings are stored from the settings dict only after the
+caller's keywords were merged into it; the forced dump at a stop always reaches
+SaveSolver (truth-table feasibility under force=True and a registered file) and
+Step requests it after logging STOP.
 NOT decided: bit-equality of continued trajectories, RNG state (premise), bytes.
 """
 import ast
